@@ -1,0 +1,17 @@
+//go:build verif
+
+package x509
+
+// Read-only accessor used only by the external verification harness (build
+// tag "verif").
+
+// VerifFindVerifiedParents returns what the pool's parent lookup returns for
+// cert during chain building: the pool members it reports as verified parents.
+func VerifFindVerifiedParents(s *CertPool, cert *Certificate) []*Certificate {
+	idx, _, _ := s.findVerifiedParents(cert)
+	out := make([]*Certificate, 0, len(idx))
+	for _, i := range idx {
+		out = append(out, s.certs[i])
+	}
+	return out
+}
